@@ -353,6 +353,8 @@ def make_tree(case):
     k = case["kind"]
     i1 = inner_tree(case.get("in1", "leaf"), "a")
     i2 = inner_tree(case.get("in2", "leaf"), "b")
+    if case.get("in2", "leaf") in ("pow", "fdiv", "divmod0"):
+        i2 = inner_tree(case["in2"], "b")
     if k == "bin":
         cfg = case["cfg"]
         if cfg == "rr":
@@ -663,7 +665,8 @@ def cases(tier):
                 for op in sorted(found["bin"]):
                     for in1 in INNER[1:]:
                         out.append({"kind": "bin", "op": op, "cfg": "rr", "in1": in1, "in2": "leaf", "dom": dom, "build": b})
-                    out.append({"kind": "bin", "op": op, "cfg": "rr", "in1": "leaf", "in2": "neg", "dom": dom, "build": b})
+                    for in2 in INNER[1:]:
+                        out.append({"kind": "bin", "op": op, "cfg": "rr", "in1": "leaf", "in2": in2, "dom": dom, "build": b})
                     out.append({"kind": "bin", "op": op, "cfg": "lr", "in1": "mul_lit", "dom": dom, "build": b})
                 for op in sorted(found["un"]):
                     for in1 in INNER[1:]:
